@@ -42,6 +42,7 @@ type Case struct {
 	Global  bool   // legacy: use WriteEfivars/ReadEfivars (GUID chosen by name)
 	Chunk   int    // read: the file hands out at most Chunk bytes per Read call (0 = no limit)
 	Short   bool   // write: the file system accepts only half of the buffer (short write, nil error)
+	Prior   int    // write through the object API: 0 none, 1 an append-write of another variable, 2 a failing write of another variable comes first on the same wrapper
 }
 
 type raw []byte
@@ -112,6 +113,9 @@ func genCase(t *rapid.T) Case {
 		c.Global = rapid.IntRange(0, 3).Draw(t, "global") == 0
 	}
 	c.Short = c.Op == "write" && rapid.IntRange(0, 5).Draw(t, "shortwrite") == 0
+	if c.Op == "write" && c.API == "object" {
+		c.Prior = rapid.SampledFrom([]int{0, 0, 1, 2}).Draw(t, "prior")
+	}
 	return c
 }
 
@@ -177,6 +181,18 @@ func checkCase(c Case) error {
 		var err error
 		if c.API == "object" {
 			fs := efivarfs.NewFS()
+			if c.Prior != 0 {
+				// the wrapper has been used before: an append-write, or a write that failed
+				hx.Class(fmt.Sprintf("write/prior_use_of_the_wrapper_%d", c.Prior))
+				pg := adapt.Lib(guid.G{D1: 0x11223344, D2: 0x5566, D3: 0x7788, D4: [8]byte{1, 2, 3, 4, 5, 6, 7, 8}})
+				pv := efivar.Efivar{Name: "VerifPrior", GUID: &pg, Attributes: attributes.Attributes(c.Attrs) | attributes.EFI_VARIABLE_APPEND_WRITE}
+				pfs := recfs.New(afero.NewMemMapFs(), "MemMapFS")
+				if c.Prior == 2 {
+					pfs.Fault = recfs.Fault{At: 2, Kind: "error"}
+				}
+				fs.SetFS(pfs)
+				fs.WriteVar(pv, raw([]byte("prior value that must not show up again")))
+			}
 			fs.SetFS(rec)
 			err = fs.WriteVar(v, m)
 		} else {
